@@ -12,5 +12,6 @@ CONSTANTS
   CrashCosts = FALSE
   Record = TRUE
 INVARIANTS TypeOK LookupSoundBytes LookupSoundFileModTrimRace HitThenReadableModTrimRace SizeImpliesComplete NoLeak LookupSoundFile HitThenReadable IndexSound EmitLookup
+PROPERTY PutPost
 VIEW View
 CHECK_DEADLOCK TRUE
